@@ -15,5 +15,5 @@ def run(c):
     c.run_m('h_c12_invoke_bad', expect_checks=(1220, 1221), expect_cover=(1220,), diff_samples=9,
             bounds={'inline <invoke> content': '8 well-formed documents the reader rejects (transition type, <initial> + initial attribute, binding, nested <scxml>, <assign> expr + text, content outside a block, missing required attributes, unknown target) + 1 conformant'})
     # evaluation never panics (shared with C11) and executable content errors do not stop the interpreter (shared with C08)
-    c.run_m('h_c11_texts', expect_checks=(1120,), expect_cover=(1120,), only={1120}, bounds={'texts': 24})
+    c.run_m('h_c11_texts', expect_checks=(1120,), expect_cover=(1120,), only={1120}, bounds={'texts': 30})
     c.run_m('h_c08_block', expect_checks=(803,), expect_cover=(801,), only={803}, bounds={'kinds': 13})
